@@ -5,14 +5,37 @@ CFG = {
     "check_vo": "theories/Check/C11.vo", "prop_vo": "theories/Properties/C11.vo",
     "prop_file": "theories/Properties/C11.v",
     "theory_files": ["theories/Graph/Nodes.v", "theories/Graph/NodesProofs.v"],
-    "level_text": "TODO",
-    "level_note": "TODO",
+    "level_text": "Coq theorems about an executable model of nodes.Struct (Value/Outdated/process/SetInput/Dependencies) and "
+                  "parameter nodes, for every history of SetParam/Connect/Disconnect/Read from the unconnected graph on every "
+                  "DAG: a read returns the from-scratch value of the current wiring and parameters, under EVERY dependency "
+                  "enumeration order; with the repaired (sorted) order a node that has executed does not execute again until "
+                  "a parameter in its cone is set or a node of its cone is re-wired; Version() = number of executions; the "
+                  "pinned map order admits a spurious execution (witness). The model is tied to the Go code on every run by "
+                  "evaluating it (vm_compute) on the implementation's histories (value, Version(), State(), execution counter "
+                  "of ALL nodes after EVERY operation) and by a direct oracle on the implementation's output",
+    "level_note": "Trusted: Coq kernel + vm_compute; hand-written model tied by differential correspondence only (generator "
+                  "quality bounds it); node values are ints and processors are harness-defined (order-sensitive polynomial "
+                  "hash); the theorems quantify over arbitrary processor functions that read every input port in "
+                  "declaration order; cycles are outside the property (the Go code does not terminate on them)",
     "technique": "Coq proof (invariants over operation histories of a fuel-recursive model of Struct.Value/Outdated) + vm_compute correspondence check",
     "design_ref": "DESIGN.md §4 C11, §5 entry 12",
     "n_quick": 150, "n_thorough": 1500,
-    "rule": "TODO",
-    "trusted": [],
-    "modelled": [],
+    "rule": "6 fixed histories (4-input node with 240 idle reads, 12-element array port with delete/append/clear, upstream "
+            "re-wiring, zero-input nodes, chain read repeatedly, only-the-last-dependency changes) + random histories of "
+            "30-90 (thorough 40-220) operations on graphs of 4-12 (thorough 4-40) nodes of 7 harness-defined struct kinds "
+            "(1-6 scalar ports, array ports, mixed) and both repository parameter kinds (parameter.Value, nodes.ValueNode); "
+            "shapes chain / diamond / array fan-in (9-15 connections, names sort V.10 < V.2) / scalar fan-in / shared "
+            "subgraph / random; operations: reads 34%, parameter updates 18% (1/6 with the same value), connects 20%, "
+            "disconnects 10% (array delete at index, '+k', '0k', clear), runs of 3-10 idle reads 8%, invalid port names / "
+            "indices 5% (must be rejected), read-everything 5%; cycle-closing connects are dropped by the generator; "
+            "distinct by history; non-trivial = at least one executing read and one edit",
+    "trusted": ["execution counters are counted by the harness-defined Process() methods",
+                "prop_ok evaluates the verified eval_scratch in Coq on the wiring tracked from the operations alone "
+                "(port edits by the documented meaning of SetInput), plus an independent from-scratch evaluation in Go"],
+    "modelled": ["reflection helpers of refutil (SetStructField / AddToStructFieldArray / RemoveFromStructFieldArray / "
+                 "FieldValuesOfType*) are modelled as list edits of named ports; declared panics of reflect are 'rejected'",
+                 "Go map iteration order is modelled as an arbitrary permutation oracle",
+                 "subscriptions (Alert) and the err result of Process() are not modelled"],
 }
 
 
